@@ -441,6 +441,33 @@ def byte_table(R, name, v) -> typing.List[dict]:
     tables = [(n, i[1][0][1] if len(i[1]) == 1 and i[1][0][0] == "init" else i[1]) for n, i in tables]
     tables = [(n, items) for n, items in tables if len(items) == 8]
     if not tables:
+        # the same table filled by a loop:  for (i = 0; i < 8; ++i) tmp[i] = (value >> (i * 8)) & 0xFF
+        for f_ in [n_ for n_ in cast.walk(v.fn) if n_.get("kind") == "ForStmt"] if hasattr(v, "fn") else []:
+            inner = f_.get("inner") or []
+            if len(inner) != 5 or inner[2] is None or inner[3] is None:
+                continue
+            cond, inc = cast.term(inner[2]), cast.term(inner[3])
+            if not (cond[0] == "bin" and cond[1] == "<" and cond[2][0] == "ref"):
+                continue
+            iv = cond[2][1]
+            bound_txt = cast.show(cond[3]).replace(" ", "")
+            arr = [n for n, (_i, ty, _c) in v.defs.items() if re.search(r"array<[^,]+,\s*(8|sizeof\(uint64_t\))\s*>|\[8\]", ty or "")]
+            bound_ok = bound_txt in ("8", "sizeof(uint64_t)") or any(bound_txt == f"{a}.size()" for a in arr)
+            init_ok = iv in v.defs and v.defs[iv][0] is not None and is_int(v.defs[iv][0], 0)
+            inc_ok = cast.show(inc).replace(" ", "") in (f"++{iv}", f"{iv}++", f"{iv}+=1")
+            body = [cast.term(x) for x in cast.walk(inner[4]) if x.get("kind") == "BinaryOperator" and x.get("opcode") == "="]
+            okb = False
+            for b in body:
+                if b[2][0] == "idx" and cast.show(b[2]).replace(" ", "") in [f"{a}[{iv}]" for a in arr]:
+                    ands = flat("&", b[3])
+                    sh = next((a_ for a_ in ands if a_[0] == "bin" and a_[1] == ">>"), None)
+                    amount = cast.show(sh[3]).replace(" ", "") if sh is not None else ""
+                    okb = sh is not None and sh[2][0] == "ref" and amount in (f"{iv}*8", f"8*{iv}") and any(is_int(a_, 255) for a_ in ands)
+            if arr and body:
+                ok_all = bound_ok and init_ok and inc_ok and okb
+                return [res(R, name, f"{name}: {arr[0]}[k] == (value >> 8k) & 0xFF", ok_all,
+                            "" if ok_all else f"loop `for ({iv} = {cast.show(v.defs[iv][0]) if iv in v.defs and v.defs[iv][0] else '?'}; {cast.show(cond)}; {cast.show(inc)})` "
+                            f"with body `{'; '.join(cast.show(b) for b in body)[:80]}` does not fill all eight bytes in little-endian order")]
         return [res(R, name, f"{name}: byte table", False, "no 8-entry byte table found on the endianness-neutral path")]
     n, items = tables[0]
     bad = []
